@@ -340,10 +340,19 @@ func (in *Interp) caseMatch(subj, cv Value) bool {
 		return true
 	}
 	if cv.K == KRegex {
-		if subj.K != KStr {
-			in.dc("regexp case against a non-string subject")
+		switch subj.K {
+		case KStr:
+			return in.regexMatch(subj.S, cv.S)
+		case KInt, KBool, KNull:
+			// a regexp arm is tried against the printed form of the subject, as match() does
+			return in.regexMatch(subj.Print(), cv.S)
+		case KFloat:
+			if math.IsNaN(subj.F) || math.IsInf(subj.F, 0) {
+				in.dc("non-finite float result")
+			}
+			return in.regexMatch(subj.Print(), cv.S)
 		}
-		return in.regexMatch(subj.S, cv.S)
+		in.dc("regexp case against a container")
 	}
 	if (subj.K == KInt && cv.K == KFloat && float64(subj.I) == cv.F) || (subj.K == KFloat && cv.K == KInt && subj.F == float64(cv.I)) {
 		in.dc("case literal of the other numeric type")
